@@ -25,7 +25,11 @@ def make(cfg, shared_memory=False):
         return s.HeavyHitters(cfg["width"], cfg.get("depth", 4), cfg.get("max_key_len", 16), cfg.get("phi"),
                               shared_memory=shared_memory)
     if k == "hll":
-        return s.HyperLogLog(cfg.get("p", 16), cfg.get("seed", 0), shared_memory=shared_memory)
+        p = cfg.get("p", 16)
+        pt = cfg.get("p_type")
+        if pt:
+            p = getattr(np, pt)(p)  # precision given as a narrow NumPy integer (e.g. taken from np.arange(7, 17, dtype=np.uint8))
+        return s.HyperLogLog(p, cfg.get("seed", 0), shared_memory=shared_memory)
     raise HarnessError(f"unknown kind {k}")
 
 
